@@ -383,6 +383,7 @@ func checkC10(c *Ctx) {
 	c10PoolContains(c)
 	c10Candidates(c)
 	c10SearchBoth(c)
+	c10CriticalFlag(c)
 	// FX inputs: nothing reachable from Verify writes memory reachable from its arguments (certificates,
 	// options incl. the requested key usages, pools, chains under construction), with named exceptions
 	if v := c.Fn("x509", "(*Certificate).Verify"); v != nil {
